@@ -155,3 +155,12 @@ Definition known_float_unify (p : program) : bool :=
   prog_exists (fun e => match e with
                         | EBin _ _ a b | ECmp _ _ a b => (is_free a && is_float b) || (is_free b && is_float a)
                         | _ => false end) p.
+
+(* type checker: an ordering guard on a variable with a multi-valued enum / interval type (`v = if(c, (do: 2), (do: 51168))`,
+   `if! v >= 0`) casts it to the Float refinement of the guard inside the branch (the intersection with the enum type is
+   not computed): its uses are wrapped in Float and print 51168.0 *)
+Definition known_enum_guard (p : program) : bool :=
+  let vars := enum_vars p in
+  prog_exists (fun e => match e with
+                        | ECmp _ (CLt | CLe | CGt | CGe) a _ => is_enum vars a
+                        | _ => false end) p.
